@@ -28,6 +28,7 @@ import (
 	"github.com/php-any/origami/node"
 	"github.com/php-any/origami/parser"
 	"github.com/php-any/origami/runtime"
+	"github.com/php-any/origami/std/php"
 	"github.com/php-any/origami/utils"
 
 	"verif/harness/vh"
@@ -76,12 +77,13 @@ var files = []fileSpec{
 var find = map[int]int{0: 0, 1: 0, 2: 1, 3: 1, 4: 2, 5: 3, 6: 4}
 
 type disk struct {
-	root   string
-	paths  []string
-	byPath map[string]int
-	byRaw  map[string]int // memo: GetSource() string as reported → file id (-1 unknown)
-	parser *parser.Parser // one parser (lexer tables, class path) re-bound to every fresh base VM
-	fields [3]string      // model-side description (constant)
+	root    string
+	paths   []string
+	byPath  map[string]int
+	written map[string]bool
+	byRaw   map[string]int // memo: GetSource() string as reported → file id (-1 unknown)
+	parser  *parser.Parser // one parser (lexer tables, class path) re-bound to every fresh base VM
+	fields  [3]string      // model-side description (constant)
 }
 
 func (d *disk) fileOf(src string) (int, bool) {
@@ -99,7 +101,7 @@ func (d *disk) fileOf(src string) (int, bool) {
 func short(n int) string { return strings.TrimPrefix(names[n], `N\`) }
 
 func writeDisk(root string) (*disk, error) {
-	d := &disk{root: root, byPath: map[string]int{}, byRaw: map[string]int{}}
+	d := &disk{root: root, byPath: map[string]int{}, byRaw: map[string]int{}, written: map[string]bool{}}
 	for i, f := range files {
 		p := filepath.Join(root, f.rel)
 		d.paths = append(d.paths, p)
@@ -908,6 +910,151 @@ func (r *runner) randomCase(alpha []op, n int, stream string) caseT {
 	return caseT{Stream: stream, NT: 4, Pool: allPool(), Ops: stamp(ops)}
 }
 
+// ------------------------------------------------------------ script stream
+//
+// The same resolve tables observed from *scripts*: after a seeded operation sequence a
+// probe script (class_exists(name, false) / function_exists(name) for the whole pool) is
+// run through every VM with LoadAndRun and must agree with what the Go API answered;
+// then one `new \N\X()` or `\N\X()` is run through one VM: a class / function that VM
+// resolves must be usable by code running on it, a function it does not resolve must not
+// be callable, and — like every operation on a TempVM — it must not change what anybody
+// else resolves.
+
+type scriptCase struct {
+	Stream string `json:"stream"` // "script"
+	Ops    []op   `json:"ops"`
+	UseV   int    `json:"use_v"` // VM the use-script runs on (-1 base)
+	UseK   string `json:"use_k"` // new | call
+	UseN   int    `json:"use_n"`
+}
+
+func (d *disk) scriptFile(name, body string) string {
+	p := filepath.Join(d.root, "scripts", name)
+	if _, ok := d.written[p]; !ok {
+		os.MkdirAll(filepath.Dir(p), 0o755)
+		os.WriteFile(p, []byte(body), 0o644)
+		d.written[p] = true
+	}
+	return p
+}
+
+func probeBody() string {
+	var sb strings.Builder
+	sb.WriteString("<?php\n")
+	for _, n := range names {
+		fmt.Fprintf(&sb, "echo class_exists('%s', false) ? '1' : '0';\n", strings.ReplaceAll(n, `\`, `\\`))
+	}
+	sb.WriteString("echo '|';\n")
+	for _, n := range names {
+		fmt.Fprintf(&sb, "echo function_exists('%s') ? '1' : '0';\n", strings.ReplaceAll(n, `\`, `\\`))
+	}
+	return sb.String()
+}
+
+// runFile runs a file through v.LoadAndRun and returns what it echoed
+func (w *world) runFile(v data.VM, path string) (out string) {
+	var sb strings.Builder
+	old := data.WriteOutput
+	data.WriteOutput = func(s string) { sb.WriteString(s) }
+	defer func() {
+		data.WriteOutput = old
+		out = sb.String()
+		if r := recover(); r != nil {
+			out += "!panic"
+		}
+	}()
+	if _, acl := v.LoadAndRun(path); acl != nil {
+		sb.WriteString("!err")
+	}
+	if data.FlushAllBuffersFn != nil {
+		data.FlushAllBuffersFn()
+	}
+	return
+}
+
+func (r *runner) runScript(sc scriptCase) {
+	d := r.d
+	w := newWorld(d, 4)
+	// only the two builtins the probe needs (php.Load would also install process-wide hooks)
+	w.base.AddFunc(php.NewClassExistsFunction())
+	w.base.AddFunc(php.NewFunctionExistsFunction())
+	pool := allPool()
+	for _, o := range sc.Ops {
+		w.exec(o)
+	}
+	tabs := w.tables(pool)
+	np := len(pool)
+	r.c.Eval("script;"+caseT{NT: 4, Ops: sc.Ops}.key()+fmt.Sprint(sc.UseV, sc.UseK, sc.UseN), len(sc.Ops) > 0)
+	r.c.Hit("script:cases")
+	allVMs := append([]data.VM{w.base}, w.temps...)
+	for vi, v := range allVMs {
+		got := w.runFile(v, d.scriptFile(fmt.Sprintf("probe_%d.php", vi), probeBody()))
+		var want strings.Builder
+		for ki, k := range kinds {
+			if k == "i" {
+				want.WriteByte('|')
+				continue
+			}
+			for pi := range pool {
+				if tabs[vi][ki*np+pi] != "-" {
+					want.WriteByte('1')
+				} else {
+					want.WriteByte('0')
+				}
+			}
+		}
+		if got != want.String() {
+			r.c.Violation("script:exists", fmt.Sprintf("class_exists/function_exists run on VM %s answer %q, the VM's GetClass/GetFunc answer %q", vmTag(vi-1), got, want.String()), sc)
+			return
+		}
+	}
+	// one use through one VM
+	before := w.tables(pool)
+	vi := sc.UseV + 1
+	var body string
+	ki := 0
+	if sc.UseK == "new" {
+		body = fmt.Sprintf("<?php\n$o = new \\%s();\necho 'done';\n", names[sc.UseN])
+	} else {
+		ki = 2
+		body = fmt.Sprintf("<?php\n\\%s();\necho 'done';\n", names[sc.UseN])
+	}
+	thrownBefore := w.thrown
+	got := w.runFile(allVMs[vi], d.scriptFile(fmt.Sprintf("use_%s_%d.php", sc.UseK, sc.UseN), body))
+	after := w.tables(pool)
+	visible := before[vi][ki*np+sc.UseN] != "-"
+	r.c.Hit(fmt.Sprintf("script:%s:visible=%v:done=%v", sc.UseK, visible, got == "done"))
+	if visible && got != "done" {
+		r.c.Violation("script:unusable:"+sc.UseK, fmt.Sprintf("VM %s resolves %s %s but a script running on it cannot use it (output %q, %d thrown)", vmTag(sc.UseV), sc.UseK, names[sc.UseN], got, w.thrown-thrownBefore), sc)
+	}
+	if sc.UseK == "call" && !visible && got == "done" {
+		r.c.Violation("script:callable-though-invisible", fmt.Sprintf("VM %s does not resolve function %s but a script running on it called it", vmTag(sc.UseV), names[sc.UseN]), sc)
+	}
+	if sc.UseV >= 0 {
+		for j := range after {
+			if j != vi && !eqTab(before[j], after[j]) {
+				r.c.Violation("leak:script:"+sc.UseK, fmt.Sprintf("a script using %s %s on TempVM %d changed what VM %s resolves", sc.UseK, names[sc.UseN], sc.UseV, vmTag(j-1)), sc)
+				break
+			}
+		}
+	}
+}
+
+func (r *runner) scriptStream() {
+	alpha := alphabet(4, allPool(), []int{0, 1, 2, 3, 4, 5, 6, 7, 8, 9}, []int{0, 1, 5, 6, 7, 8, 9})
+	for i := 0; i < r.c.N(1500, 30000); i++ {
+		n := r.c.Rand.Range(0, 25)
+		ops := make([]op, n)
+		for j := range ops {
+			ops[j] = vh.Pick(r.c.Rand, alpha)
+		}
+		sc := scriptCase{Stream: "script", Ops: stamp(ops), UseV: r.c.Rand.Range(-1, 3), UseK: vh.Pick(r.c.Rand, []string{"new", "call"}), UseN: r.c.Rand.Intn(len(names))}
+		if r.take() {
+			r.runScript(sc)
+		}
+	}
+}
+
 // ------------------------------------------------------------ known stream
 
 // the negation witnesses of Proofs/Properties/C12.lean, replayed on the real code
@@ -1162,6 +1309,12 @@ func runShard(c *vh.Ctx, shard, nshards int) {
 			c.Note("bad replay: %v", err)
 			return
 		}
+		if cs.Stream == "script" {
+			var sc scriptCase
+			json.Unmarshal(c.ReplayRaw, &sc)
+			r.runScript(sc)
+			return
+		}
 		if cs.NT == 0 {
 			cs.NT = 4
 		}
@@ -1199,6 +1352,9 @@ func runShard(c *vh.Ctx, shard, nshards int) {
 		r.push(r.randomCase(alpha, c.Rand.Range(5, 40), "main"))
 	}
 	r.flush()
+
+	// ---- the same tables seen from scripts
+	r.scriptStream()
 
 	// ---- known stream
 	r.knownStream()
